@@ -18,11 +18,22 @@ from dataclasses import dataclass, field
 from pathlib import Path
 from typing import Any
 
-from detsched import (FakeEvent, FakeExecutor, FakeLock, FakeThread, Pending, Sched, SchedAbort)
+from detsched import (FakeEvent, FakeExecutor, FakeLock, FakeRLock, FakeThread, Pending, Sched, SchedAbort)
 
 
 class InjectedFault(Exception):
     pass
+
+
+class WeirdFault(InjectedFault):
+    """A user exception that cannot be turned into text (its `__str__` returns an error code, not a
+    string): legal Python, met in the wild, and fatal for any handler that formats it before doing its job."""
+
+    def __str__(self) -> int:          # type: ignore[override]
+        return 17
+
+    def __repr__(self) -> str:
+        return "WeirdFault()"
 
 
 # kinds of user callbacks (the vocabulary of the Proto model)
@@ -141,6 +152,8 @@ class Scenario:
     keeper_max_keep: int | None = None
     fixed_interval: float | None = None   # FixedIntervalInteraction.with_sleep_adjustor(agent, env, interval, offset)
     interval_offset: float = 0.0
+    swap_env: bool = False                # the environment is put in place after the Interaction was constructed
+    train_clock_sleep: float = 0.0        # every training run sleeps this long on the *system* clock (pamiq_core.time.sleep)
     archive_states: bool = False      # somebody moves the oldest state directory away after every runtime save
     loop_quantum: float = 0.25        # timed mode: virtual duration of one loop delay
     prelaunch: bool = False           # run a short first launch() and start the scenario from its final state
@@ -355,6 +368,10 @@ class Harness:
         self._patch(ptime, "fixed_sleep", vt.sleep)
         ctl = ptime._time_controller
         self._saved_ctl_state = dict(ctl.__dict__)
+        # the clock's own lock cooperates with the scheduler: never a scheduling point while uncontended
+        # (no decisions are added), but a thread that finds it held blocks in the scheduler instead of
+        # hanging the run (a sleep taken while holding it)
+        self._patch(ptime, "RLock", lambda: FakeRLock(s, "clock_lock"))
         ctl.__init__()
         # observation wrappers (no behaviour change)
         H = self
@@ -553,6 +570,14 @@ class Harness:
             if sc.keeper_max_keep is not None:
                 from pamiq_core.state_persistence import LatestStatesKeeper
                 keeper = LatestStatesKeeper(self.tmp / "states", sc.keeper_max_keep)
+                _orig_cleanup = keeper.cleanup
+
+                def _cleanup_w(*a: Any, **kw: Any) -> Any:
+                    r = _orig_cleanup(*a, **kw)
+                    if not self.in_prelaunch:
+                        s.log("cleanup_listing", "", sorted(p.name for p in (self.tmp / "states").glob("*.state")))
+                    return r
+                keeper.cleanup = _cleanup_w     # observation only
 
             def save_cond() -> bool:
                 i = self.save_cond_calls
@@ -662,6 +687,9 @@ class _Cb:
             if f["comp"] == self.comp and f["cb"] == self.name and \
                     (f["k"] == self.k or (f["k"] == "final" and getattr(H, "in_final_save", False))):
                 s.log("cb_raise", f"{self.comp}.{self.name}", self.k)
+                # every second injected fault is an exception that cannot be formatted
+                if (self.k + len(self.comp)) % 2 == 0:
+                    raise WeirdFault(f"{self.comp}.{self.name}#{self.k}")
                 raise InjectedFault(f"{self.comp}.{self.name}#{self.k}")
         s.log("cb_end", f"{self.comp}.{self.name}", self.k)
         return False
@@ -792,6 +820,9 @@ def build_components(H: Harness) -> dict:
                 self.runs += 1
                 H.sched.log("data", "trainRun", int(self.name[7:]))
                 self.seen = len(self.user.get_data())
+                if H.sc.train_clock_sleep and not H.in_prelaunch:
+                    import pamiq_core.time as _pt
+                    _pt.sleep(float(H.sc.train_clock_sleep))     # user code waiting on the system clock
 
         def teardown(self) -> None:
             with H.cb(self.name, "t_teardown"):
@@ -825,6 +856,17 @@ def build_components(H: Harness) -> dict:
         from pamiq_core.interaction import FixedIntervalInteraction
         inter = FixedIntervalInteraction.with_sleep_adjustor(agent, env, float(H.sc.fixed_interval),
                                                              float(H.sc.interval_offset))
+    elif H.sc.swap_env:
+        # `interaction.environment = …` after construction (a user decorating or replacing the environment):
+        # the public attribute is what the framework steps, sets up, pauses and tears down
+        class _Placeholder(Environment):
+            def observe(self) -> Any:
+                return None
+
+            def affect(self, action: Any) -> None:
+                pass
+        inter = Interaction(agent, _Placeholder())
+        inter.environment = env
     else:
         inter = Interaction(agent, env)
     return {"interaction": inter, "trainers": trainers}
